@@ -26,24 +26,33 @@ NONE = Opt(None, False)
 
 
 class Gen(list):
-    pass
+    def __repr__(self):
+        return "Gen(%s)" % list.__repr__(self)
 
 
 class Stack(list):
-    pass
+    def __repr__(self):
+        return "Stack(%s)" % list.__repr__(self)
 
 
 class SetV(list):
-    pass
+    def __repr__(self):
+        return "SetV(%s)" % list.__repr__(self)
 
 
 class MapV(list):
     """list of (k, v)"""
 
+    def __repr__(self):
+        return "MapV(%s)" % list.__repr__(self)
+
 
 class Uni:
     def __init__(self, idx, v):
         self.idx, self.v = idx, v
+
+    def __repr__(self):
+        return f"Uni({self.idx}, {self.v!r})"
 
 
 class AnyOf:
@@ -56,6 +65,9 @@ class AnyOf:
 
 class Skip:
     """no value expectation (the case still runs under the panic / shape monitors)"""
+
+    def __repr__(self):
+        return "Skip()"
 
 
 class Approx:
@@ -107,7 +119,7 @@ def to_dump(v):
 def matches(expect, out):
     """out: outcome dict {'kind':..., 'dump': stripped}"""
     if isinstance(expect, Skip):
-        return True
+        return out["kind"] in ("value", "error")
     if isinstance(expect, AnyOf):
         return any(matches(a, out) for a in expect.alts)
     if isinstance(expect, Err):
